@@ -7,7 +7,7 @@ From GoCar Require Import Bytes Varint Cid Header Frame V2Header Scan Val RunSca
    srckind: 0 bytes.Reader, 1 *os.File, 2 plain io.Reader (counting, chunked),
             3 counting Read+ReadByte+Seek, 4 counting Read+Seek.
    The high-water mark is observable for kinds 2..4 only (printed as 0 otherwise).
-   expect: (tvalid blocks base payload_len) | (ttrunc nonboundary) | (tnone) *)
+   expect: (tvalid blocks base payload_len) | (ttrunc nonboundary [blocks base payload_len]) | (tnone) *)
 Definition brpos_seek (k : N) : bool := negb (k =? 2).
 Definition brpos_hwobs (k : N) : bool := 2 <=? k.
 
@@ -29,7 +29,7 @@ Definition run_brpos (input : val) : val :=
   let w := map vbool (vL (vnth 5 input)) in
   let hwobs := brpos_hwobs k in
   let h x := VN (if hwobs then x else 0) in
-  match brp_run hok hdr o (brpos_seek k) file w with
+  match brp_run64 hok hdr o (brpos_seek k) file w with   (* br.offset as uint64 *)
   | Err e => VL [VT "openerr"; v_err e]
   | Ok (v, roots, st0, (steps, (e, fin))) =>
     VL [VT "ok"; VN v; v_cids roots; VN (p_pos st0); h (p_hw st0);
@@ -125,6 +125,17 @@ Definition prop_brpos (input obs : val) : val :=
        section (C02's truncation clause, for the walker C02's own check does not drive) *)
     if opened && vbool (vnth 1 expect) && is_tag (vnth 1 endv) "eof"
     then VL [VT "FAIL"; VT "truncation-reported-as-clean-eof"; VT "skipnext-after-length-varint"]
+    else if opened && negb (length (vL expect) <? 5)%nat then
+      (* (ttrunc inside blocks base payload_len): whatever steps the walk over the prefix made must
+         be the exact first steps of the walk over the whole archive
+         (C14_walk_over_a_prefix_is_the_prefix_of_the_walk) *)
+      let bs := vblocks (vnth 2 expect) in
+      let base := vN (vnth 3 expect) in
+      let plen := vN (vnth 4 expect) in
+      match check_steps o file base (base + plen) w bs steps (plen - blen (enc_sections bs)) with
+      | Some clause => VL [VT "FAIL"; VT "prefix-walk-differs"; VT clause]
+      | None => VT "ok"
+      end
     else VT "ok"
   else VT "ok".
 
@@ -281,7 +292,12 @@ Definition prop_inspect (input obs : val) : val :=
     let insp_eof := is_tag (vnth 0 insp) "insperr" && is_tag (vnth 1 insp) "eof" in
     let open_eof := is_tag (vnth 0 scan) "openerr" && is_tag (vnth 1 scan) "eof" in
     let idx_eof := is_tag (vnth 0 idx) "idxerr" && is_tag (vnth 1 idx) "eof" in
-    if insp_eof && negb open_eof && negb (scan_ok && idx_eof)
+    (* inputs made by flipping one byte inside a block's data or its CID's digest in a valid
+       archive: full validation must fail (C13_full_validation_reports_a_corrupted_*_byte) *)
+    let how := vnth 5 input in
+    if (is_tag how "data-flip" || is_tag how "digest-flip") && is_tag (vnth 0 insp) "ok"
+    then VL [VT "FAIL"; VT "corruption-not-reported"]
+    else if insp_eof && negb open_eof && negb (scan_ok && idx_eof)
     then VL [VT "FAIL"; VT "inspect-error-is-clean-eof"]
     else if insp_ok && negb scan_ok then VL [VT "FAIL"; VT "inspect-succeeds-scan-fails"]
     else if insp_ok && negb idx_ok then VL [VT "FAIL"; VT "inspect-succeeds-index-codec-unreadable"]
